@@ -103,6 +103,25 @@ mod verif_witness {
 		}
 	}
 
+	// Vidya(3), 3 steps over the alphabet {0, 1, 2}: the smoothing factor f * |CMO| lies in [0, 1], so every output lies between the
+	// previous output and the new input (C12: no overshoot); window 3 holds a rise, a fall and a flat step at once
+	fn tri_letter() -> ValueType {
+		let k: u8 = kani::any();
+		match k % 3 { 0 => 0.0, 1 => 1.0, _ => 2.0 }
+	}
+	#[kani::proof]
+	fn vk_vidya_no_overshoot_3steps() {
+		let x0 = tri_letter();
+		let mut m = Vidya::new(3, &x0).unwrap();
+		let mut last = x0;
+		let x1 = tri_letter(); let o1 = m.next(&x1);
+		assert!(o1 >= last.min(x1) && o1 <= last.max(x1)); last = o1;
+		let x2 = tri_letter(); let o2 = m.next(&x2);
+		assert!(o2 >= last.min(x2) && o2 <= last.max(x2)); last = o2;
+		let x3 = tri_letter(); let o3 = m.next(&x3);
+		assert!(o3 >= last.min(x3) && o3 <= last.max(x3));
+	}
+
 	// ---- C09: in-place / boxed-closure evaluation against the element-by-element stream (witness for the combinators unit) ----
 	// Change(1): next(x) = x - previous input; cheap float arithmetic, state-dependent, so any skipped or doubled step shows
 	#[kani::proof]
